@@ -12,7 +12,7 @@ VALIDATION_CASES = {'quick': 80, 'thorough': 300}
 TIME_BUDGET = {'quick': 900, 'thorough': 3300}
 OPTS = c03.OPTS
 BOUNDS = {
-    'quick': 'the 21 well-formed merge tables of harnesses/c03.py plus 16 generated tables sampled per VERIF_SEED, max_vocab_size None / truncating to the first merge / below '
+    'quick': 'the 22 well-formed merge tables (one with merges overlapping in U+0000) of harnesses/c03.py plus 16 generated tables sampled per VERIF_SEED, max_vocab_size None / truncating to the first merge / below '
              '256; texts of <= 4 symbolic characters over {a, b, c, d, space, tab, ä} (<= 3 with one unconstrained 3-byte '
              'character), special configs default and bos_eos (prefix / suffix); special tokens ignored on both sides',
     'thorough': 'texts of <= 5 symbolic characters',
